@@ -125,18 +125,26 @@ NoPend == [on |-> FALSE, a |-> <<>>, todo |-> <<>>, kt |-> "", dt |-> ""]
 (* role: "main" | "base" (schema/@extends) | "src" (import/@src) | "comp" (import/@package)          *)
 NewFrameEv(kind, rid, si, role, evs) ==
   [kind |-> kind, rid |-> rid, role |-> role, si |-> si, evs |-> evs,
-   elems |-> <<>>, pfx |-> <<>>, ost |-> <<>>, cd |-> NoCD, bk |-> <<>>, bd |-> <<>>, pend |-> NoPend]
+   elems |-> <<>>, pfx |-> <<>>, ost |-> <<>>, cd |-> NoCD, bk |-> <<>>, bd |-> <<>>, pend |-> NoPend,
+   rd |-> 0]
 NewFrame(kind, rid, si, role) == NewFrameEv(kind, rid, si, role, Events(DocOf(rid)))
 
 (* objects on the object stack                                                                       *)
 Obj(k, n) == [k |-> k, n |-> n, i |-> 0, wild |-> FALSE, multi |-> FALSE, fin |-> FALSE, raw |-> <<>>,
               hasd |-> FALSE, hase |-> FALSE]
 
-Start(rid) == [err |-> "", any |-> FALSE, done |-> FALSE, schs |-> <<NewSch>>,
-               fr |-> <<NewFrame("schema", rid, 1, "main")>>]
+(* ev: the resource events so far (C19): <<"open", rid>> when a resource starts to be parsed, <<"close", rid>>  *)
+(* when its parser frame is left - normally or because the load fails (all frames are unwound innermost first). *)
+(* fault: [rid, n] - the n-th read of resource rid raises (environment; n = 0: none).  A document is read in   *)
+(* one piece: read 1 returns it (its elements are then handled), read 2 finds the end of the resource.         *)
+NoFault == [rid |-> "", n |-> 0]
+StartF(rid, fault) == [err |-> "", any |-> FALSE, done |-> FALSE, schs |-> <<NewSch>>,
+                       fr |-> <<NewFrame("schema", rid, 1, "main")>>, ev |-> <<<<"open", rid>>>>, fault |-> fault]
+Start(rid) == StartF(rid, NoFault)
 (* the same for a document given as a tree (it has no references to resolve) *)
 StartTree(tree) == [err |-> "", any |-> FALSE, done |-> FALSE, schs |-> <<NewSch>>,
-                    fr |-> <<NewFrameEv("schema", "~tree~", 1, "main", Events(tree))>>]
+                    fr |-> <<NewFrameEv("schema", "~tree~", 1, "main", Events(tree))>>,
+                    ev |-> <<<<"open", "~tree~">>>>, fault |-> NoFault]
 
 F(st)        == st.fr[Len(st.fr)]
 SetF(st, f)  == [st EXCEPT !.fr[Len(st.fr)] = f]
@@ -379,7 +387,8 @@ ResumeSchema(st) ==
             f1 == [f EXCEPT !.pend.todo = Tail(@)]
         IN IF r.frag THEN Fail(st, "schema extends may not include a fragment identifier")
            ELSE IF r.rid = "" THEN FailAny(st, "cannot open base schema")
-           ELSE [SetF(st, f1) EXCEPT !.fr = Append(@, NewFrame("schema", r.rid, f.si, "base"))]
+           ELSE [SetF(st, f1) EXCEPT !.fr = Append(@, NewFrame("schema", r.rid, f.si, "base")),
+                                     !.ev = Append(@, <<"open", r.rid>>)]
      ELSE
         LET kconf == f.bk # <<>> /\ ~Has(p.a, "keytype") /\ ~AllSame(f.bk)
             dconf == f.bd # <<>> /\ ~Has(p.a, "datatype") /\ ~AllSame(f.bd)
@@ -411,13 +420,15 @@ StartImport(st, a) ==
          ELSE IF r.frag THEN Fail(st, "import src may not include a fragment identifier")
          ELSE IF r.rid = "" THEN FailAny(st, "cannot open imported schema")
          ELSE [st EXCEPT !.schs = Append(@, NewSch),
-                         !.fr = Append(@, NewFrame("schema", r.rid, Len(st.schs) + 1, "src"))])
+                         !.fr = Append(@, NewFrame("schema", r.rid, Len(st.schs) + 1, "src")),
+                         !.ev = Append(@, <<"open", r.rid>>)])
      ELSE
         (IF HasDirPart(file) THEN Fail(st, "file may not include a directory part")
          ELSE IF ~pi.ok THEN Fail(st, "schema component cannot be located")
          ELSE IF pi.url \in sch.comps THEN st
          ELSE [SetSch(st, [sch EXCEPT !.comps = @ \cup {pi.url}])
-                 EXCEPT !.fr = Append(@, NewFrame("component", pi.rid, f.si, "comp"))])
+                 EXCEPT !.fr = Append(@, NewFrame("component", pi.rid, f.si, "comp")),
+                        !.ev = Append(@, <<"open", pi.rid>>)])
 
 -------------------------------------------------------------------------
 (* startElement / characters / endElement                                  *)
@@ -487,18 +498,23 @@ MergeTypes(sch, sub, i) ==
 EndFrame(st) ==
   LET f == F(st)
       n == Len(st.fr)
-  IN IF n = 1 THEN [st EXCEPT !.done = TRUE]
+  IN IF st.fault.n = 2 /\ st.fault.rid = f.rid THEN FailAny(st, "read fault")
+     ELSE IF n = 1 THEN [st EXCEPT !.done = TRUE, !.ev = Append(@, <<"close", f.rid>>)]
      ELSE IF f.role = "src"
           THEN LET below == st.fr[n - 1]
                    mt == MergeTypes(st.schs[below.si], st.schs[f.si], 1)
-               IN IF ~mt.ok THEN Fail(st, "type name cannot be redefined")
-                  ELSE [st EXCEPT !.fr = Front(@), !.schs = [Front(@) EXCEPT ![below.si] = mt.sch]]
-          ELSE [st EXCEPT !.fr = Front(@)]
+               IN IF ~mt.ok THEN Fail([st EXCEPT !.fr = Front(@), !.schs = Front(@),
+                                                  !.ev = Append(@, <<"close", f.rid>>)],
+                                      "type name cannot be redefined")
+                  ELSE [st EXCEPT !.fr = Front(@), !.schs = [Front(@) EXCEPT ![below.si] = mt.sch],
+                                  !.ev = Append(@, <<"close", f.rid>>)]
+          ELSE [st EXCEPT !.fr = Front(@), !.ev = Append(@, <<"close", f.rid>>)]
 
 (* one step of the machine                                                 *)
 StepKind(st) ==
   LET f == F(st) IN
-  IF f.pend.on THEN "Resume"
+  IF f.rd = 0 THEN "ReadResource"
+  ELSE IF f.pend.on THEN "Resume"
   ELSE IF f.evs = <<>> THEN "EndOfResource"
   ELSE IF Head(f.evs).e = "S" THEN "Start_" \o Head(f.evs).tag
   ELSE IF Head(f.evs).e = "T" THEN "Characters"
@@ -506,13 +522,28 @@ StepKind(st) ==
 
 Step(st) ==
   LET f == F(st) IN
-  IF f.pend.on THEN ResumeSchema(st)
+  IF f.rd = 0 THEN (IF st.fault.n = 1 /\ st.fault.rid = f.rid THEN FailAny(st, "read fault")
+                    ELSE SetF(st, [f EXCEPT !.rd = 1]))
+  ELSE IF f.pend.on THEN ResumeSchema(st)
   ELSE IF f.evs = <<>> THEN EndFrame(st)
   ELSE LET ev  == Head(f.evs)
            st1 == SetF(st, [f EXCEPT !.evs = Tail(@)])
        IN CASE ev.e = "S" -> StartEl(st1, ev.tag, ev.a)
             [] ev.e = "T" -> Chars(st1, ev.text)
             [] ev.e = "E" -> EndEl(st1, ev.tag)
+
+(* the resource events of a finished or failed build: a failure unwinds every open frame, innermost first *)
+RECURSIVE CloseAllFrames(_, _)
+CloseAllFrames(fr, ev) == IF fr = <<>> THEN ev
+                          ELSE CloseAllFrames(Front(fr), Append(ev, <<"close", fr[Len(fr)].rid>>))
+ResourceEvents(st) == IF st.err # "" THEN CloseAllFrames(st.fr, st.ev) ELSE st.ev
+
+(* opens and closes nest, and nothing stays open *)
+RECURSIVE Nested(_, _)
+Nested(evs, stack) ==
+  IF evs = <<>> THEN stack = <<>>
+  ELSE IF evs[1][1] = "open" THEN Nested(Tail(evs), Append(stack, evs[1][2]))
+  ELSE stack # <<>> /\ stack[Len(stack)] = evs[1][2] /\ Nested(Tail(evs), Front(stack))
 
 RECURSIVE RunFrom(_)
 RunFrom(st) == IF Running(st) THEN RunFrom(Step(st)) ELSE st
